@@ -128,6 +128,9 @@ pub fn rss_mib() -> u64 {
 /// Install a silent panic hook: the harness observes panics through catch_unwind and reports them
 /// itself; the default hook would flood stderr during known-finding sweeps.
 pub fn quiet_panics() {
+    if std::env::var("VERIF_LOUD_PANICS").is_ok() {
+        return; // debugging aid: keep the default hook
+    }
     std::panic::set_hook(Box::new(|_| {}));
 }
 
